@@ -3,10 +3,11 @@ import numpy as np
 
 
 def ucells(am, origin=False):
-    def mk(box, rel, types, dd, setting=None):
-        q = list(range(1, len(types) + 1))
-        if setting:            # centring-equivalent atoms must be identical
-            q = [7] * len(types)
+    def mk(box, rel, types, dd, setting=None, q=None):
+        if q is None:
+            q = list(range(1, len(types) + 1))
+            if setting:            # centring-equivalent atoms must be identical
+                q = [7] * len(types)
         atoms = am.Atoms(atype=types, pos=np.array(rel, dtype=float) / dd, q=np.array(q, dtype=int),
                          w=np.outer(np.array(q, dtype=float), [1.0, -0.5, 0.25]))   # vector property tied to q
         if origin:
@@ -26,5 +27,12 @@ def ucells(am, origin=False):
         'mono': mk(am.Box.monoclinic(3.0, 4.0, 5.0, 105.0), [[0, 0, 0], [4, 2, 5]], [1, 2], 8),
         'tri1': mk(am.Box.triclinic(3.0, 4.0, 5.0, 80.0, 95.0, 105.0), [[1, 2, 3], [5, 6, 1], [0, 4, 4]], [2, 1, 1], 8),
         'rhoT1': mk(am.Box.hexagonal(3.0, 7.5), [[0, 0, 0], [4, 2, 2], [2, 4, 4]], [1, 1, 1], 6, 't1'),
+        # several atoms per lattice point (a motif of two species): centring-equivalent atoms share type and q, the motif atoms differ
+        'dia': mk(am.Box.cubic(4.0), [[0, 0, 0], [4, 4, 0], [4, 0, 4], [0, 4, 4], [2, 2, 2], [6, 6, 2], [6, 2, 6], [2, 6, 6]], [1] * 4 + [2] * 4, 8, 'f', [7] * 4 + [9] * 4),
+        'bcc2': mk(am.Box.cubic(3.0), [[0, 0, 0], [4, 4, 4], [2, 1, 3], [6, 5, 7]], [1, 1, 2, 2], 8, 'i', [7, 7, 9, 9]),
+        'tetI2': mk(am.Box.tetragonal(3.0, 5.0), [[0, 0, 0], [4, 4, 4], [1, 2, 3], [5, 6, 7]], [1, 1, 2, 2], 8, 'i', [7, 7, 9, 9]),
+        'monoC2': mk(am.Box.monoclinic(3.0, 4.0, 5.0, 105.0), [[0, 0, 0], [4, 4, 0], [1, 2, 3], [5, 6, 3]], [1, 1, 2, 2], 8, 'c', [7, 7, 9, 9]),
+        'rhoT1b': mk(am.Box.hexagonal(3.0, 7.5), [[0, 0, 0], [8, 4, 4], [4, 8, 8], [1, 2, 3], [9, 6, 7], [5, 10, 11]], [1, 1, 1, 2, 2, 2], 12, 't1', [7, 7, 7, 9, 9, 9]),
+        'hex2': mk(am.Box.hexagonal(3.0, 5.0), [[0, 0, 0], [4, 8, 6]], [1, 2], 12),
         'rhoT2': mk(am.Box.hexagonal(3.0, 7.5), [[0, 0, 0], [2, 4, 2], [4, 2, 4]], [1, 1, 1], 6, 't2'),
     }
